@@ -436,7 +436,15 @@ def _equal_or_same(a, b):
     Note that np.nan != float('nan') != pd.NA etc., so we collapse all of these
     missing value things using pd.isna()
     """
-    return a == b or a is b or (pd.isna(a) and pd.isna(b))
+    a_missing, b_missing = _is_missing(a), _is_missing(b)
+    if a_missing or b_missing:
+        # settled before ==: pd.NA == x is pd.NA, which has no truth value
+        return a_missing and b_missing
+    return a == b or a is b
+
+
+def _is_missing(x):
+    return pd.api.types.is_scalar(x) and pd.isna(x)
 
 
 def _df_elements(df):
